@@ -158,6 +158,7 @@ class State:
 
 import re as _re
 
+AV_MAX_LEN = 65535  # tinyvec::ArrayVec { len: u16, .. }
 _AV_RE = _re.compile(r"^tinyvec::arrayvec::ArrayVec<\[.*; (\d+)\]>$")
 _ARR_RE = _re.compile(r"^\[.*; (\d+)\]$")
 
@@ -185,7 +186,7 @@ def type_len(ty_s):
         return (n, n)
     m = _AV_RE.match(t)
     if m:
-        return (0, int(m.group(1)))
+        return (0, min(int(m.group(1)), AV_MAX_LEN))
     if t.startswith("generic_array::GenericArray<"):
         bits = _re.findall(r"\bB([01])\b", t)
         if bits and "UTerm" in t:
@@ -194,17 +195,19 @@ def type_len(ty_s):
     if t.startswith("util::ArrayVecZeroize<"):
         mm = _re.search(r", (\d+)>$", t)
         if mm:
-            return (0, int(mm.group(1)))
+            return (0, min(int(mm.group(1)), AV_MAX_LEN))
     if t.startswith("[") and t.endswith("]") and ";" not in t.rsplit("]", 1)[0].rsplit("[", 1)[-1]:
         return (0, SLICE_LEN_MAX)
     return None
 
 
 def type_cap(ty_s):
+    """Usable capacity: tinyvec's ArrayVec stores its length in a u16, so no more than 65535 elements can
+    ever be held whatever the backing array's size (set_len / push panic beyond that)."""
     t = strip_refs(ty_s)
     m = _AV_RE.match(t)
     if m:
-        return int(m.group(1))
+        return min(int(m.group(1)), AV_MAX_LEN)
     m = _ARR_RE.match(t)
     if m:
         return int(m.group(1))
@@ -277,6 +280,7 @@ class Analyzer:
         self.cmp_obs = {}  # (fn, bb of switch) -> operand intervals of the deciding comparison
         self.add_obs = {}  # (fn, bb of an Overflow:Add assert) -> (interval of a, interval of b)
         self.incr = {}  # (fn, bb of push/extend) -> max length increment
+        self.lossy_obs = {}  # (fn, kind, target type) -> (exact interval, target range): narrowing casts / saturating / wrapping ops that may lose value
         self.agg_obs = {}
         self.len_obs = {}  # (adt, field) -> join of observed lengths at every struct literal (None = unknown somewhere)
         self.field_lens = {}  # established field length sets (see establish_field_lens)
@@ -933,6 +937,8 @@ class Analyzer:
                 return
             if "IntToInt" in rv["cast"] or rv["cast"] == "Transmute":
                 iv = clip(src, rng)
+                if self._recording and (src[0] < rng[0] or src[1] > rng[1]):
+                    self.note_lossy(f, "cast", place["ty"], src, rng)
                 self.set_key(st, dkey, iv)
                 skey = self.op_key(st, rv["op"])
                 if skey is not None and iv == src and dkey[0] not in self._mut_borrowed:
@@ -1117,6 +1123,11 @@ class Analyzer:
             st.kill(dkey)
             return
         self.set_key(st, dkey, rng)
+
+    def note_lossy(self, f, kind, ty, exact, rng):
+        k = (f.path, kind, ty)
+        prev = self.lossy_obs.get(k)
+        self.lossy_obs[k] = (join(prev[0], exact), rng) if prev else (exact, rng)
 
     def arith(self, op, a, b, rng):
         if a is None or b is None:
